@@ -4,6 +4,8 @@
 
 #include <algorithm>
 #include <cctype>
+#include <deque>
+#include <list>
 #include <map>
 #include <mutex>
 #include <string>
@@ -13,6 +15,7 @@
 #include "opentelemetry/context/context.h"
 #include "opentelemetry/context/propagation/composite_propagator.h"
 #include "opentelemetry/context/propagation/global_propagator.h"
+#include "opentelemetry/context/propagation/noop_propagator.h"
 #include "opentelemetry/context/propagation/text_map_propagator.h"
 #include "opentelemetry/trace/context.h"
 #include "opentelemetry/trace/default_span.h"
@@ -173,6 +176,93 @@ static std::string handle_bg(const std::vector<std::string> &t)
       else
         o = "d=" + vh::to_hex(d);
     }
+    // ---- further entry points that build or read a baggage
+    // mk <variant> <k> <v> ... : the templated constructor Baggage(const T &keys_and_values) (no validity check, NUL-terminated
+    // copies) over several key-value-iterable container types; the caller's container is destroyed right after
+    else if (op.size() >= 2 && op.size() % 2 == 0 && op[0] == "mk" && op[1].size() == 1)
+    {
+      std::vector<std::pair<std::string, std::string>> kvs;
+      bool ok = true;
+      for (size_t j = 2; j + 1 < op.size() && ok; j += 2)
+      {
+        ok = vh::from_hex(op[j], a) && vh::from_hex(op[j + 1], b);
+        kvs.emplace_back(a, b);
+      }
+      BG r;
+      if (ok && op[1] == "v")
+      {
+        std::unique_ptr<std::vector<std::pair<std::string, std::string>>> c(
+            new std::vector<std::pair<std::string, std::string>>(kvs));
+        r = BG(new baggage::Baggage(*c));
+      }
+      else if (ok && op[1] == "s")
+      {
+        std::vector<std::unique_ptr<vh::Exact>> keep;
+        std::vector<std::pair<nostd::string_view, nostd::string_view>> c;
+        for (auto &kv : kvs)
+        {
+          keep.emplace_back(new vh::Exact(kv.first));
+          auto *k = keep.back().get();
+          keep.emplace_back(new vh::Exact(kv.second));
+          auto *v = keep.back().get();
+          c.emplace_back(nostd::string_view(k->data(), k->size()), nostd::string_view(v->data(), v->size()));
+        }
+        r = BG(new baggage::Baggage(c));
+      }
+      else if (ok && op[1] == "l")
+      {
+        std::list<std::pair<std::string, std::string>> c(kvs.begin(), kvs.end());
+        r = BG(new baggage::Baggage(c));
+      }
+      else if (ok && op[1] == "d")
+      {
+        std::deque<std::pair<std::string, nostd::string_view>> c;
+        for (auto &kv : kvs) c.emplace_back(kv.first, nostd::string_view(kv.second.data(), kv.second.size()));
+        r = BG(new baggage::Baggage(c));
+      }
+      else if (ok && op[1] == "m")
+      {
+        // a std::map iterates in key order: only strictly ascending key lists are well-formed cases
+        bool asc = true;
+        for (size_t j = 1; j < kvs.size(); j++) asc = asc && kvs[j - 1].first < kvs[j].first;
+        if (asc)
+        {
+          std::map<std::string, std::string> c(kvs.begin(), kvs.end());
+          r = BG(new baggage::Baggage(c));
+        }
+      }
+      for (auto &kv : kvs)  // the strings the containers were filled from
+      {
+        std::fill(kv.first.begin(), kv.first.end(), '#');
+        std::fill(kv.second.begin(), kv.second.end(), '#');
+      }
+      if (r) o = push(r);
+    }
+    // new <n> : Baggage(size_t) - an empty baggage with room for n entries
+    else if (op.size() == 2 && op[0] == "new" && !op[1].empty() && op[1].size() <= 4 &&
+             op[1].find_first_not_of("0123456789") == std::string::npos)
+    {
+      o = push(BG(new baggage::Baggage(static_cast<size_t>(std::stoul(op[1])))));
+    }
+    // dflt : the shared Baggage::GetDefault() (what FromHeader returns for an over-long header)
+    else if (op.size() == 1 && op[0] == "dflt")
+    {
+      o = push(baggage::Baggage::GetDefault());
+    }
+    // all <i> <n> : GetAllEntries with a callback that returns false at its n-th call (0 = never)
+    else if (op.size() == 3 && op[0] == "all" && idx(op[1], i) && !op[2].empty() && op[2].size() <= 4 &&
+             op[2].find_first_not_of("0123456789") == std::string::npos)
+    {
+      size_t stop = std::stoul(op[2]), calls = 0;
+      std::string s = "[";
+      bool ret      = states[i]->GetAllEntries([&](nostd::string_view k, nostd::string_view v) {
+        if (calls) s += ",";
+        calls++;
+        s += vh::to_hex(k.data(), k.size()) + ":" + vh::to_hex(v.data(), v.size());
+        return calls != stop;
+      });
+      o = "seen=" + s + "] ret=" + (ret ? "1" : "0");
+    }
     // "neither changes the baggage they were called on": every earlier baggage must still print as it did
     for (size_t j = 0; j < states.size(); j++)
       if (show_bag(*states[j]) != shown[j]) o += " MUTATED" + std::to_string(j);
@@ -188,8 +278,11 @@ static cprop::TextMapPropagator *make_part(const std::string &n)
   if (n == "b3m") return new tprop::B3PropagatorMultiHeader();
   if (n == "jg") return new tprop::JaegerPropagator();
   if (n == "bag") return new baggage::propagation::BaggagePropagator();
+  if (n == "noop") return new cprop::NoOpPropagator();
   return nullptr;
 }
+
+static nostd::shared_ptr<cprop::TextMapPropagator> g_initial;
 
 // the composite (installed in and fetched from the global slot, as an application would) and, separately, fresh
 // instances of its parts in the same order
@@ -197,6 +290,12 @@ static bool make_composite(const std::string &plist, nostd::shared_ptr<cprop::Te
                            std::vector<std::unique_ptr<cprop::TextMapPropagator>> &parts)
 {
   std::vector<std::unique_ptr<cprop::TextMapPropagator>> ps;
+  if (plist == "@")
+  {
+    // what the global slot held before anything was installed (fetched at the start of main): no parts
+    out = g_initial;
+    return static_cast<bool>(out);
+  }
   if (plist != "-")
   {
     std::string cur;
@@ -321,6 +420,39 @@ static std::string handle_comp(const std::vector<std::string> &t)
     for (auto &kv : c.out_) c2.Put(kv.first, kv.second);
     return do_extract(*comp, parts, c2);
   }
+  if (t.size() == 4 && t[1] == "fields" && !t[3].empty() && t[3].size() <= 3 &&
+      t[3].find_first_not_of("0123456789") == std::string::npos)
+  {
+    // Fields with a callback that returns false at its n-th call (0 = never); next to it the parts asked by hand, in order,
+    // until one of them reports false
+    if (!make_composite(t[2], comp, parts)) return "bad-op";
+    size_t stop = std::stoul(t[3]);
+    auto run    = [&](bool whole) {
+      size_t calls = 0;
+      std::string s = "[";
+      auto cb = [&](nostd::string_view f) {
+        if (calls) s += ",";
+        calls++;
+        s += vh::to_hex(f.data(), f.size());
+        return calls != stop;
+      };
+      bool ret = true;
+      if (whole)
+        ret = comp->Fields(cb);
+      else
+        for (auto &q : parts)
+        {
+          if (!q->Fields(cb))
+          {
+            ret = false;
+            break;
+          }
+        }
+      return "f=" + s + "] ret=" + (ret ? "1" : "0");
+    };
+    std::string a = run(true);
+    return a + " parts=" + run(false);
+  }
   if (t.size() == 11 && t[1] == "extract")
   {
     if (!make_composite(t[2], comp, parts)) return "bad-op";
@@ -340,6 +472,7 @@ static std::string handle_comp(const std::vector<std::string> &t)
 
 int main()
 {
+  g_initial = cprop::GlobalTextMapPropagator::GetGlobalPropagator();
   return vh::run_lines([](const std::vector<std::string> &t) -> std::string {
     if (t.empty()) return "bad-op";
     if (t[0] == "bg") return handle_bg(t);
